@@ -190,6 +190,7 @@ Kinds ==
 \* ------------------------------------------------------------- part "dict"
 \* every word of the source dictionary (Dict.tla) as module name, user name, password, object name, host and database
 \* name of the statements that take one, and as the database of a SELECT's source and target
+LeafN(f, db, nm) == [k |-> "m", f |-> f, db |-> db, nm |-> nm]
 DictFamily(w) ==
   One("ShowDiagnostics", "", Kws(<<"SHOW", "DIAGNOSTICS", "FOR">>) \o <<Str(w)>>)
   \cup One("ShowStats", "", Kws(<<"SHOW", "STATS", "FOR">>) \o <<Str(w)>>)
@@ -221,6 +222,21 @@ DictFamily(w) ==
            Kws(<<"SHOW", "FIELD", "KEY", "EXACT", "CARDINALITY">>) \o OnToks(w) \o FromToks(<<Leaf("db.rp.m", w)>>)),
         KS(St("Select", "", FALSE, <<Leaf("db..m", w), Sub(<<Leaf("db.rp.re", w)>>, NoTgt)>>, [f |-> "db..m", db |-> w], "none"),
            SelectToks(<<Leaf("db..m", w), Sub(<<Leaf("db.rp.re", w)>>, NoTgt)>>, [f |-> "db..m", db |-> w])),
+        \* the word as the NAME of a measurement that is read: alone, next to another source, in a subquery, under EXPLAIN,
+        \* as the source of SELECT INTO, in the FROM clause of SHOW / cardinality / DELETE statements
+        KS(St("Select", "", FALSE, <<LeafN("m", "", w)>>, NoTgt, "none"), SelectToks(<<LeafN("m", "", w)>>, NoTgt)),
+        KS(St("Select", "", FALSE, <<LeafN("db..m", "d1", w), Leaf("db..m", "d2")>>, [f |-> "db..m", db |-> "d3"], "none"),
+           SelectToks(<<LeafN("db..m", "d1", w), Leaf("db..m", "d2")>>, [f |-> "db..m", db |-> "d3"])),
+        KS(St("Select", "", FALSE, <<Leaf("m", ""), Sub(<<LeafN("db.rp.m", "d2", w)>>, NoTgt)>>, NoTgt, "none"),
+           SelectToks(<<Leaf("m", ""), Sub(<<LeafN("db.rp.m", "d2", w)>>, NoTgt)>>, NoTgt)),
+        KS(St("Explain", "", FALSE, <<LeafN("db..m", "d1", w)>>, NoTgt, "analyze"), WrapToks("analyze") \o SelectToks(<<LeafN("db..m", "d1", w)>>, NoTgt)),
+        KS(St("ShowSeriesCardinality", "", TRUE, <<LeafN("db..m", "d1", w)>>, NoTgt, "none"),
+           Kws(<<"SHOW", "SERIES", "EXACT", "CARDINALITY">>) \o FromToks(<<LeafN("db..m", "d1", w)>>)),
+        KS(St("ShowTagValues", "d1", FALSE, <<LeafN("m", "", w)>>, NoTgt, "none"),
+           Kws(<<"SHOW", "TAG", "VALUES">>) \o OnToks("d1") \o FromToks(<<LeafN("m", "", w)>>) \o WithKey),
+        KS(St("ShowFieldKeys", "", FALSE, <<LeafN("rp.m", "", w)>>, NoTgt, "none"), Kws(<<"SHOW", "FIELD", "KEYS">>) \o FromToks(<<LeafN("rp.m", "", w)>>)),
+        KS(St("DeleteSeries", "", FALSE, <<LeafN("m", "", w)>>, NoTgt, "none"), Kws(<<"DELETE">>) \o FromToks(<<LeafN("m", "", w)>>)),
+        KS(St("DropSeries", "", FALSE, <<LeafN("m", "", w)>>, NoTgt, "none"), Kws(<<"DROP", "SERIES">>) \o FromToks(<<LeafN("m", "", w)>>)),
         KS(St("Explain", "", FALSE, <<Leaf("db..m", w)>>, [f |-> "db.rp.:M", db |-> w], "analyze"),
            WrapToks("analyze") \o SelectToks(<<Leaf("db..m", w)>>, [f |-> "db.rp.:M", db |-> w])),
         KS(St("CreateContinuousQuery", w, FALSE, <<Leaf("db..m", w)>>, [f |-> "db..m", db |-> w], "none"),
